@@ -445,4 +445,100 @@ def g13(ctx):
 
 
 def run(ctx):
-    return [helper_shapes(ctx), g9(ctx)] + g10_g11(ctx) + [g12(ctx), g13(ctx)]
+    return [helper_shapes(ctx), g9(ctx)] + g10_g11(ctx) + [g12(ctx), g13(ctx), g14(ctx)]
+
+
+# ------------------------------------------------------------------------- G14
+IEEE_WHITE_SPACE = set(' \t\n\r\x0c')      # 1800-2017 5.3: spaces, tabs, newlines, formfeeds (and carriage return of CRLF)
+NOM_CLASSES = {'space1': ' \t', 'space0': ' \t', 'multispace1': ' \t\r\n', 'multispace0': ' \t\r\n',
+               'digit1': '0123456789', 'digit0': '0123456789', 'line_ending': '\r\n',
+               'alpha1': 'abcdefghijklmnopqrstuvwxyzABCDEFGHIJKLMNOPQRSTUVWXYZ',
+               'hex_digit1': '0123456789abcdefABCDEF'}
+
+
+def g14(ctx):
+    """Character classes of the raw lexers are statically known sets; the trivia function accepts only IEEE white space."""
+    g = ctx.grammar
+    r = RuleResult('G14', 'lexer character classes are statically known; trivia accepts exactly the IEEE 5.3 white-space characters')
+    consts = {}
+    for fl, fv in sx.crate_files(ctx.syn, g.crate).items():
+        for mp, it in sx.items_rec(fv['items']):
+            if it['k'] == 'const' and sx.lit_str(it['e']) is not None:
+                consts[it['name']] = sx.lit_str(it['e'])
+
+    def charset(node):
+        """(set or None, description) for a prim node"""
+        nm = node['name']
+        if nm in NOM_CLASSES:
+            return set(NOM_CLASSES[nm]), nm
+        if nm in ('is_a', 'is_not', 'one_of', 'none_of', 'char'):
+            a = node['args'][0] if node['args'] else None
+            if a is None:
+                return None, nm + '(?)'
+            if sx.lit_str(a) is not None:
+                return set(sx.lit_str(a)), '%s(%r)' % (nm, sx.lit_str(a))
+            if a.get('k') == 'lit' and a.get('t') == 'char':
+                return set(a['v']), '%s(%r)' % (nm, a['v'])
+            if sx.is_path(a) and a['p'] in consts:
+                return set(consts[a['p']]), '%s(%s)' % (nm, a['p'])
+            return None, '%s(%s)' % (nm, sx.render(a)[:30])
+        if nm in ('take', 'anychar', 'eof', 'success', 'rest'):
+            return set(), nm
+        return None, '%s(%s)' % (nm, sx.render(node['args'])[:30])
+    n = 0
+    for f in g.parsers():
+        for node in grammar.iter_ir(f.ir):
+            if node['op'] != 'prim':
+                continue
+            n += 1
+            cs, desc = charset(node)
+            r.inst('class:%s:%s' % (f.name, desc), {'fn': f.name, 'lexer': desc} if n % 25 == 1 else None)
+            if cs is None:
+                r.fail('%s:%s:unknown-char-class:%s' % (g.crate, f.name, node['name']), '%s/%s:%s' % (g.crate, f.file, node.get('l')),
+                       '%s: the character class of %s is a predicate or expression, not a literal/constant set: which characters the lexer '
+                       'accepts is not statically known (fail closed; e.g. char::is_whitespace also accepts U+000B, U+0085, U+00A0, U+2028)'
+                       % (f.name, desc))
+    # trivia role: what white_space itself (and the span-returning helpers it uses) accepts as blanks
+    ws_role = None
+    wsf = g.fns.get('ws')
+    if wsf is not None and wsf.ir is not None:
+        for node in grammar.iter_ir(wsf.ir):
+            if node['op'] == 'many0' and node['p'].get('op') == 'ref':
+                ws_role = node['p']['name']
+    r.exactly('trivia_function', 1 if ws_role else 0, 1)
+    if ws_role:
+        seen = set()
+        todo = [ws_role]
+        accepted = set()
+        unknown = []
+        while todo:
+            fn_ = todo.pop()
+            if fn_ in seen:
+                continue
+            seen.add(fn_)
+            f = g.fns[fn_]
+            for node, look in grammar.iter_ir_ctx(f.ir):
+                if look:
+                    continue
+                if node['op'] == 'prim' and node['consuming']:
+                    cs, desc = charset(node)
+                    if cs is None:
+                        unknown.append(desc)
+                    elif node['name'] in ('is_not', 'none_of'):
+                        unknown.append(desc + ' (complement set)')
+                    else:
+                        accepted |= cs
+                elif node['op'] == 'ref':
+                    t = g.fns[node['name']]
+                    out = t.out_ty
+                    if out is not None and out.get('k') == 'path' and out['p'] in ('Span', 'Locate'):
+                        todo.append(node['name'])
+        r.inst('trivia-alphabet', {'function': ws_role, 'blank_characters': sorted(accepted), 'unknown': unknown})
+        extra = sorted(accepted - IEEE_WHITE_SPACE)
+        if extra or unknown:
+            r.fail('%s:%s:trivia-alphabet' % (g.crate, ws_role), '%s/%s:%d' % (g.crate, g.fns[ws_role].file, g.fns[ws_role].line),
+                   '%s accepts %s as blanks; IEEE 1800-2017 5.3 white space is space, tab, newline, formfeed: a byte that cannot start any '
+                   'token would be swallowed as trivia instead of making the source be rejected' %
+                   (ws_role, (['%r' % c for c in extra] + unknown)))
+    r.floor('raw_lexers', n, 45)
+    return r
